@@ -548,8 +548,18 @@ func replayAbortedWrite() (finds []Finding) {
 			}()
 			sb.writes = nil
 			na1, na2 := len(sa1.writes), len(sa2.writes)
-			b.Info("hello", zap.Int("round", round))
-			b.With(zap.Int("c", 1)).Warn("hello again")
+			func() {
+				defer func() {
+					if p := recover(); p != nil {
+						add("C07/fields", "after a logging call of logger A was aborted by a panic (variant %d) and recovered, logger B's own logging call panicked: %v (its entry went through something that is not its own)", variant, p)
+					}
+				}()
+				b.Info("hello", zap.Int("round", round))
+				b.With(zap.Int("c", 1)).Warn("hello again")
+			}()
+			if len(finds) > 0 {
+				return finds
+			}
 			want := []string{fmt.Sprintf(`{"msg":"hello","request":"B","round":%d}`, round), `{"msg":"hello again","request":"B","c":1}`}
 			got := []string{}
 			for _, w := range sb.writes {
